@@ -120,6 +120,7 @@ def run(ctx):
     r.floor(rule, 'operators', len(disp), 15)
     validation_gate(ctx)
     operand_gate(ctx)
+    visited_set_balanced(ctx)
 
     run_e1(ctx, ENTRY, extra_auto=make_table_auto(ctx, agree))
 
@@ -253,3 +254,36 @@ def make_table_auto(ctx, agree=None):
                     return 'operands[%d..]: validation guarantees >= %d operands (C39 table agreement)' % (F.const_int(ix[4][0]), min(ns))
         return None
     return table_auto
+
+
+def visited_set_balanced(ctx, rule='cycle-set-is-a-path-set'):
+    """operator::value_of guards the element recursion with a set of the elements on the CURRENT evaluation path: the index
+    inserted before evaluate(..) must be removed again on every path from that call to the return, otherwise an element that is
+    legitimately reached twice (Between(e, lo, hi), two operands naming the same element) is reported as a cycle"""
+    r, db = ctx.r, ctx.db
+    b = db.body('server::events::operator::value_of')
+    if b is None:
+        r.lost(rule, 'value_of', 'operator::value_of not found'); return
+    F = ctx.facts(b)
+    ev = [c for c in b.calls() if c.callee.endswith('operator::evaluate')]
+    ins = [c for c in b.calls() if re.search(r'HashSet::insert$', c.callee)]
+    rem = [c for c in b.calls() if re.search(r'HashSet::remove$', c.callee)]
+    if len(ev) != 1 or not ins:
+        r.lost(rule, 'shape', 'recursive evaluate call / insertion into the cycle set not found in value_of'); return
+    c = ev[0]
+    def key_of(call):
+        k = F.sym_operand(call.args[1])
+        while k[0] in ('ref', 'deref'):
+            k = k[1]
+        return k
+    good = [x for x in rem if F.sym_operand(x.args[0]) == F.sym_operand(ins[0].args[0]) and key_of(x) == key_of(ins[0])]
+    if not good:
+        r.fail(rule, 'value_of', 'the element index inserted into the cycle set before evaluate(..) is never removed: the set grows into "every element ever visited" '
+               'and a clause that reaches one element twice fails with BadFilterOperandInvalid', loc=c.loc); return
+    stop = {x.bb for x in good}
+    reach = b.reachable_blocks(c.target, stop=stop) if c.target is not None else set()
+    leaks = [bb for bb in b.return_blocks() if bb in reach and bb not in stop]
+    if leaks:
+        r.fail(rule, 'value_of', 'a path from the recursive evaluate(..) to the return does not remove the element index from the cycle set', loc=c.loc)
+    else:
+        r.ok(rule, 'value_of', 'insert(index) ... evaluate(..) ... remove(index) on every path: the set holds exactly the elements of the current evaluation path', loc=c.loc)
